@@ -113,14 +113,20 @@ func symSchema(cfg *symCfg, tag string, depth int) spec.Schema {
 	}
 	if kw&kwPatternProperties != 0 && vrfBool(tag+".pprops") {
 		s.PatternProperties = map[string]spec.Schema{}
-		if vrfBool(tag + ".pp0") {
-			s.PatternProperties[cfg.name(tag+".pp0.name")] = symSchema(cfg, tag+".pp0", depth-1)
+		for i := 0; i < cfg.K; i++ {
+			t := tag + ".pp" + itoaSmall(i)
+			if vrfBool(t) {
+				s.PatternProperties[cfg.name(t+".name")] = symSchema(cfg, t, depth-1)
+			}
 		}
 	}
 	if kw&kwDefinitions != 0 && vrfBool(tag+".defs") {
 		s.Definitions = map[string]spec.Schema{}
-		if vrfBool(tag + ".d0") {
-			s.Definitions[cfg.name(tag+".d0.name")] = symSchema(cfg, tag+".d0", depth-1)
+		for i := 0; i < cfg.K; i++ {
+			t := tag + ".d" + itoaSmall(i)
+			if vrfBool(t) {
+				s.Definitions[cfg.name(t+".name")] = symSchema(cfg, t, depth-1)
+			}
 		}
 	}
 	if kw&(kwItems|kwTuple) != 0 && vrfBool(tag+".items") {
@@ -231,7 +237,10 @@ func symResponse(cfg *symCfg, tag string) spec.Response {
 	var r spec.Response
 	if cfg.refs && vrfBool(tag+".isref") {
 		r.Ref = spec.MustCreateRef("#/responses/" + jsonpointer.Escape(tag))
-		return r
+		if cfg.refLeaf || !vrfBool(tag+".isref.siblings") {
+			return r
+		}
+		// a loadable document may carry inline content beside a $ref: it is still part of the document
 	}
 	r.Description = tag
 	r.Headers = symHeaders(cfg, tag)
